@@ -505,7 +505,7 @@ func (g *Gen) clientLine(s *gsess) string {
 	case "NICK":
 		params = []string{g.anyNick()}
 	case "USER":
-		params = []string{g.pick([]string{"u", "user", "blah", "u!x@y"}), "0", "*"}
+		params = []string{g.pick([]string{"u", "user", "blah", "u!x@y", "xééééé", "üñí©ødé123", "ab€€€€", "\U0001f600\U0001f600\U0001f600x"}), "0", "*"}
 		hasTrailing, trailing = true, g.pick([]string{"Real Name", "", "r"})
 	case "PASS":
 		hasTrailing, trailing = true, g.pick([]string{"nickserv=pw", "secret", "services=" + SvcPass, "oper=" + OperName + " " + OperPass, "oper=" + OperName + " wrong", "oper=" + OperName + " " + OperPass2, "oper=" + OperName2 + " " + OperPass, "captcha=" + g.captchaLogin(), "oper=op", "a:b:oper=" + OperName + " " + OperPass, "network=x:nickserv=y", "services=wrong"})
@@ -748,7 +748,7 @@ func (g *Gen) register(s *gsess) {
 	n := g.pick(nickPool)
 	order := g.R.Intn(3)
 	if order == 0 {
-		g.line(s, "USER "+g.pick([]string{"u", "user", "blah"})+" 0 * :Real "+n)
+		g.line(s, "USER "+g.userName()+" 0 * :Real "+n)
 	}
 	if g.R.Intn(8) == 0 {
 		g.line(s, "PASS :"+g.pick([]string{"nickserv=pw", "oper=" + OperName + " " + OperPass, "secret"}))
@@ -756,10 +756,19 @@ func (g *Gen) register(s *gsess) {
 	g.line(s, "NICK "+n)
 	s.nick = n
 	if order != 0 {
-		g.line(s, "USER "+g.pick([]string{"u", "user", "blah"})+" 0 * :Real "+n)
+		g.line(s, "USER "+g.userName()+" 0 * :Real "+n)
 	}
 	s.user = true
 	s.reg = true
+}
+
+// userName picks a user name; with Extra some are not ASCII (a cut inside a character
+// would leave half of it in the prefix of every line the user sends).
+func (g *Gen) userName() string {
+	if g.P.Extra && g.R.Intn(6) == 0 {
+		return g.pick([]string{"xééééé", "üñí©ødé123", "ab€€€€€", "\U0001f600\U0001f600\U0001f600x", "ééééééééééé"})
+	}
+	return g.pick([]string{"u", "user", "blah"})
 }
 
 func (g *Gen) makeLink() *gsess {
@@ -888,7 +897,7 @@ func (g *Gen) scenario() {
 	ch := g.pick([]string{"#s1", "#s2", "#S1", "#s3"})
 	nsc := 11
 	if g.P.Extra {
-		nsc = 19
+		nsc = 21
 	}
 	sc := g.R.Intn(nsc)
 	if sc >= 11 {
@@ -1094,6 +1103,32 @@ func (g *Gen) extraScenario(sc int, a, b *gsess, rs []*gsess) {
 				break
 			}
 		}
+	case 19: // an address is banned network-wide; a registered session then shows up from it
+		for _, o := range rs {
+			if o.oper && o != a && o != b {
+				g.line(a, "JOIN #s10")
+				g.line(b, "JOIN #s10")
+				g.line(o, "GLINE "+b.nick+" :spam")
+				b.dead = true
+				banned := b.addr
+				// the next line of a carries the banned address (its bridge reconnected from there)
+				a.addr = banned
+				g.line(a, g.pick([]string{"JOIN #s11", "TOPIC #s10 :from the banned address", "MODE #s10 +i", "PRIVMSG #s10 :hello", "NICK " + a.nick + "x"}))
+				a.dead = true
+				g.line(o, "NAMES #s10")
+				break
+			}
+		}
+	case 20: // texts whose relayed line is just below, at and just above the length limit
+		ch := "#s12"
+		g.line(a, "JOIN "+ch)
+		g.line(b, "JOIN "+ch)
+		base := 425 + g.R.Intn(30)
+		tail := g.pick([]string{"€€", "éé", "\U0001f600", "ää€"})
+		for n := 0; n < 48; n++ {
+			g.line(a, "PRIVMSG "+ch+" :"+strings.Repeat("a", base+n)+tail)
+		}
+		g.line(a, "TOPIC "+ch+" :"+strings.Repeat("t", base+20+g.R.Intn(30))+tail)
 	case 18: // a captcha-protected channel is attempted whatever the configuration says about captchas
 		ch := g.pick([]string{"#s9", "#S9"})
 		g.line(a, "JOIN "+ch)
